@@ -99,6 +99,10 @@ structure Sys (σ α : Type) where
   reachedEnd : Bool
   /-- `Shared::encountered_error` (written by the decoder thread, read by the audio thread) -/
   encounteredError : Bool
+  /-- the `StreamingSound` — the owner of the frame ring's `Consumer` — has been dropped: what
+      `frame_producer.is_abandoned()` tells the decoder thread (rtrb: the other end of the ring is gone).
+      Set when the sound is refused by a full track or discarded with its track / manager; never cleared -/
+  soundDropped : Bool
   /-- `Shared::position` (written by the audio thread; read by the handle and by `seek_by`) -/
   sharedPosition : α
   /-- decoder thread: `decoder`, `decoder_current_frame_index`, `decoded_chunk`
@@ -140,7 +144,7 @@ inductive ThreadStep where
   | sleep
   /-- `NextStep::End`: `break` — the thread ends and drops the scheduler (decoder, producers) -/
   | ended
-  /-- `Err(e)`: error pushed, flag set, loop again at once (no sleep, no break) -/
+  /-- `Err(e)`: error pushed, flag set, `break` — the thread ends like `ended`, after reporting the error -/
   | erred
   /-- a panic inside `run` unwinds the thread -/
   | panicked
@@ -157,8 +161,8 @@ inductive Op (α : Type) where
   /-- `process` on `len` frames (audio thread) -/
   | process (len : Nat) (dt : α) (info : Info α)
   /-- one iteration of the decoder loop (decoder thread) — if the thread still exists: it ends for good when
-      `run` reaches the end of the data (a thread that ended because it saw `Stopped` would only see `Stopped`
-      again, so for it another iteration changes nothing) -/
+      `run` reaches the end of the data or returns an error (a thread that ended because it saw `Stopped`, or that
+      its sound was dropped, would only see the same again, so for it another iteration changes nothing) -/
   | decode
 
 namespace Sys
@@ -184,6 +188,7 @@ def new (D : Decoder σ α) (d : StreamingSoundData σ α) : Except Err (Sys σ 
             errRing := Ring.new errorBufferCapacity
             reachedEnd := false
             encounteredError := false
+            soundDropped := false
             sharedPosition := (KOps.ofNat transport.position : α) / (KOps.ofNat d.sampleRate : α)
             ds := ds
             transport := transport
@@ -254,6 +259,7 @@ def produce (D : Decoder σ α) (fuel : Nat) (s : Sys σ α) : RunOutcome × Sys
 /-- mirrors: streaming/sound/decode_scheduler.rs::DecodeScheduler::run — one iteration of the decoder loop body -/
 def run (D : Decoder σ α) (fuel : Nat) (s : Sys σ α) : RunOutcome × Sys σ α :=
   if s.core.shared = .stopped then (.ok .end, s)
+  else if s.soundDropped then (.ok .end, s)      -- `frame_producer.is_abandoned()`: nobody is left to read the frames
   else if s.ring.isFull then (.ok .wait, s)
   else
     match readSeekByCmd D (readLoopCmd s) with
@@ -421,7 +427,7 @@ def step (D : Decoder σ α) (fuel : Nat) (s : Sys σ α) : Op α → Except Fau
   | .popError => .ok ((popError s).2, [])
   | .startProcessing => .ok (s.onStartProcessing, [])
   | .process len dt info => s.process fuel len dt info
-  | .decode => .ok (if s.reachedEnd then s else (threadIter D fuel s).2, [])
+  | .decode => .ok (if s.reachedEnd || s.encounteredError then s else (threadIter D fuel s).2, [])
 
 /-- a history: final state and everything written to the output, or the first fault of the audio thread -/
 def runOps (D : Decoder σ α) (fuel : Nat) (s : Sys σ α) : List (Op α) →
